@@ -33,13 +33,30 @@ PROP = {
                   "equals the set of outstanding votes, unanimity is stable, Unanimous/UnanimityPending answers "
                   "are sound, a withdrawn vote blocks the stop until re-cast, a dropped party counts as voted. "
                   "Tied to the real coordinator by differential execution at operation granularity (random + "
-                  "exhaustive small scope for 2 and 3 parties).",
+                  "exhaustive small scope for 2 and 3 parties). The coordinator AS USED: a composed model of the agent "
+                  "runtime's read, write and HTTP task (each a voter with its busy flag and timer) and of the stop rule "
+                  "of AgentRuntimeTask::run, for every timeout and every script of remote / agent / HTTP activity and "
+                  "clock advances: the runtime stops by the vote only when no task is busy, all three votes are "
+                  "outstanding and a full timeout has passed since each task's last activity; a task that becomes busy "
+                  "blocks the stop until the agent reads; once every flag is set the run has ended; a task told "
+                  "Unanimous has set the last flag. Tied to the real AgentRouteTask::run_agent (paused clock, stop "
+                  "time and DisconnectionReason compared) and, for the two-party case, to the real "
+                  "ValueDownlinkRuntime; the real coordinator is also stressed with one OS thread per voter "
+                  "(monitor).",
     "level_note": "Atomics are modelled as a total modification order on one location (guaranteed by Rust even for "
                   "Relaxed); AtomicWaker and the Acquire/Release pairing with the receiver are trusted; the "
-                  "implementation is exercised single-threaded, the interleavings are covered by the theorem.",
+                  "implementation is exercised single-threaded by the differential engines (the interleavings are "
+                  "covered by the theorem) and multi-threaded by coord-threads (monitor only). 'Stops only by the "
+                  "unanimous vote' is false of the agent runtime (C17-N1: no remotes => the write task stops it alone); "
+                  "the liveness statement of the runtime model is open (C17_rt_quiet_stops_open) and the downlink "
+                  "runtime model has no theorems yet.",
     "trusted_base": COMMON_TRUST + [
         "modelled, not verified: AtomicU8 (single-location total order), futures::task::AtomicWaker",
+        "tokio's paused clock (timers fire in deadline order at their exact instants); the harness's bookkeeping of "
+        "which task is blocked (one request frame per lane input, HTTP lane queue of length 1)",
     ],
     "assumptions": ["each voter is used by one thread at a time (Voter is !Sync)",
+                    "runtime model: remotes are not pruned, writes to remotes do not stall, lanes are not added "
+                    "after start; downlink model: linked remote lane, consumers without SYNC, drained socket",
                     "single-location atomic operations are linearizable"],
 }
